@@ -98,19 +98,45 @@ type fmtFlags struct {
 }
 
 func (e *Engine) sprintf(format Str, args Slice) Str {
-	if format.t != nil {
-		e.unsupported("symbolic format string")
-	}
 	f := format.s
+	var terms []*Term
+	if format.t != nil {
+		// A format with symbolic bytes: every byte that matters to the verb syntax
+		// is made concrete by a solver-decided fork ('%', flags, digits, '.'); any
+		// other byte stays symbolic and is copied to the output as it is.
+		terms = format.t
+		b := make([]byte, len(terms))
+		for i, t := range terms {
+			if t.IsConst() {
+				b[i] = byte(t.c)
+				continue
+			}
+			b[i] = 0x01 // opaque: none of the special characters
+			for _, c := range []byte("%+#0- 123456789.") {
+				if e.decide(e.ts.Cmp(opEq, t, e.ts.Const(8, uint64(c)))) {
+					b[i] = c
+					break
+				}
+			}
+		}
+		f = string(b)
+	}
+	mkStr := func(x string) Str { return Str{s: x} }
+	lit := func(i, j int) Str {
+		if terms == nil {
+			return mkStr(f[i:j])
+		}
+		return normStr(append([]*Term(nil), terms[i:j]...))
+	}
 	out := Str{}
 	argi := 0
 	for i := 0; i < len(f); {
 		j := strings.IndexByte(f[i:], '%')
 		if j < 0 {
-			out = e.strConcat(out, mkStr(f[i:]))
+			out = e.strConcat(out, lit(i, len(f)))
 			break
 		}
-		out = e.strConcat(out, mkStr(f[i:i+j]))
+		out = e.strConcat(out, lit(i, i+j))
 		i += j + 1
 		if i >= len(f) {
 			out = e.strConcat(out, mkStr("%!(NOVERB)"))
@@ -158,8 +184,11 @@ func (e *Engine) sprintf(format Str, args Slice) Str {
 			continue
 		}
 		if argi >= len(args) {
-			out = e.strConcat(out, mkStr("%!"+string(verb)+"(MISSING)"))
+			out = e.strConcat(e.strConcat(e.strConcat(out, mkStr("%!")), lit(i-1, i)), mkStr("(MISSING)"))
 			continue
+		}
+		if verb == 0x01 {
+			e.unsupported("symbolic format verb")
 		}
 		arg := args[argi].(Iface)
 		argi++
